@@ -1883,6 +1883,10 @@ def _exits(body):
 def _negate(test):
     if isinstance(test, ast.UnaryOp) and isinstance(test.op, ast.Not):
         return test.operand
+    if isinstance(test, ast.BoolOp):
+        # De Morgan: the negation goes to the operands
+        new = ast.BoolOp(op=ast.And() if isinstance(test.op, ast.Or) else ast.Or(), values=[_negate(v) for v in test.values])
+        return ast.copy_location(new, test)
     if isinstance(test, ast.Compare) and len(test.ops) == 1:
         inv = {ast.Is: ast.IsNot, ast.IsNot: ast.Is, ast.In: ast.NotIn, ast.NotIn: ast.In, ast.Eq: ast.NotEq, ast.NotEq: ast.Eq}
         t = type(test.ops[0])
@@ -2247,6 +2251,9 @@ def canon_flow_list(stmts, pattern=False, tail=True, loads=None):
         if isinstance(s, ast.Try):
             for h in s.handlers:
                 h.body = canon_flow_list(h.body, pattern, tail=False, loads=loads)
+        if isinstance(s, ast.If) and s.orelse and not pattern and all(isinstance(x, ast.Pass) for x in s.body):
+            # if c: pass else: X  ->  if not c: X
+            s.test, s.body, s.orelse = _negate(s.test), s.orelse, []
         if isinstance(s, ast.If) and s.orelse:
             wild = pattern and (any(_is_wild(x) for x in s.body) or any(_is_wild(x) for x in s.orelse))
             if not wild:
